@@ -997,6 +997,8 @@ def main(run):
     if run.tier == "thorough":
         coqchk(run, "QV.C03.Props")
     run.not_proved += [n[: -len("_partial")] + " (full statement; see the _partial theorem)" for n in names if n.endswith("_partial")]
+    run.notes["model_follows"] = ("the repaired tree: MeasurementResult.add_shot records the bits in the gate's own qubit order; "
+                                  "frequencies(registers=True) honours `registers` for repeated-execution results")
     b = budgets(run.tier)
     part_probabilities(run, rng, be, b["probs"])
     part_conversions(run, rng, be, b["conv"])
